@@ -61,7 +61,7 @@ CHECKS = {
             "AST->z3 for the id structure, CrossHair enumeration for the sequential contract; sat schedules replayed with real threads via sys.monitoring",
             "bounded model checking: for each (threads, calls) configuration z3 shows that NO interleaving at instruction granularity and NO initial counter value yields a duplicate, a gap or a deadlock (unsat), "
             "with a sat reachability twin; the id text is shown uniquely decodable for all numbers",
-            "lock modelled as an owner variable; thread-local instructions commute (partial-order reduction); GIL build",
+            "locks modelled as owner variables (one per lock object; a lock created on first use is a shared lock variable with predicated steps); thread-local instructions commute (partial-order reduction); GIL build",
             "DESIGN.md 3/C16"),
     "C17": ("XH", "CrossHair-driven exhaustive enumeration (z3 choice variables) of wrapper chains x request arguments x derivation histories; real connection classes against a recording opener, "
             "compared with a reference request builder",
